@@ -51,3 +51,22 @@ func verifLemmaAvcSeqHeaderRoundTrip(sps, pps []byte) ([]byte, []byte, error, er
 //@   loop 1 invariant 0 <= pos && pos <= len(nals)
 //@   loop 1 decreases len(nals) - pos
 //@ end
+
+// C19: sequence header -> Annex-B. Every parameter set adds a four-byte start code and all of its bytes to the output,
+// for every number of parameter sets and every length (the output never stops growing at the size of the input).
+// The byte contents of the output are not under contract (see DESIGN §0a.5, seed C19-3).
+//@ func SpsPpsSeqHeader2Annexb
+//@   props C19 C05
+//@   safety C05
+//@   assumes len(NaluStartCode4) == 4
+//@   loop 1 invariant [C19.annexb.sc1] len(NaluStartCode4) == 4
+//@   loop 2 invariant [C19.annexb.sc2] len(NaluStartCode4) == 4
+//@   loop 1 step [C19.annexb.sps.len]  len(ret) == old(len(ret)) + 4 + len(item)
+//@   loop 2 step [C19.annexb.pps.len]  len(ret) == old(len(ret)) + 4 + len(item)
+//@ end
+// Frame: parsing the parameter-set lists does not touch the package-level start code.
+//@ func parseSpsPpsListFromSeqHeaderWithoutMalloc
+//@   props C19 C05
+//@   safety C05
+//@   ensures [C19.avc.list.frame] len(NaluStartCode4) == old(len(NaluStartCode4))
+//@ end
